@@ -80,10 +80,10 @@ def _run(cond, raw, p, realize=True):
     return chx.judge("C07", cond, raw, p, obs, _oracle)
 
 
-TOK_Q = ["a", "b", "|", "(", ")", "*", "+", "?", "{2}", "{1,2}", "[ab]", "[a-c]", "\\d", "\\.", "{0,2}"]
+TOK_Q = ["a", "b", "|", "(", ")", "*", "+", "?", "{2}", "{1,2}", "[ab]", "[a-c]", "\\d", "\\.", "{0,2}", "\\)"]
 TOK_T = ["a", "b", "-", "|", "(", ")", "*", "+", "?", "{0}", "{2}", "{1,2}", "{2,2}", "{0,2}", "[ab]",
          "[a-c]", "[a\\-c]", "[+*()?.|]", "\\d", "\\s", "\\.", "\\*", "\\+", "\\?", "\\|", "\\(", "\\[",
-         "\\\\"]
+         "\\\\", "\\)"]
 TOK4 = ["a", "b", "|", "(", ")", "*", "+", "?", "{2}", "[ab]"]
 TOK3 = TOK_T if chx.thorough() else TOK_Q
 NTOK3 = len(TOK3)
@@ -162,7 +162,7 @@ def _sh_wide(tier):
 
 def _sh_tok4(tier):
     if tier == "quick":
-        return product_pins(t0=[0, 3, 9], t1=[0, 2, 4, 5, 8])
+        return product_pins(t0=[0, 3, 9], t1=[0, 2, 4, 5, 8]) + [{"t0": 3, "t1": 9}, {"t0": 3, "t1": 3}]
     return product_pins(t0=list(range(10)), t1=list(range(10)))
 
 
@@ -188,8 +188,8 @@ ASSUME = ["the constructor PythonRegex(p) runs under the symbolic interpreter; t
 
 CONDS = [
     Cond("C07", c07_tokens3, _sh_tok3,
-         {"quick": "0-3 tokens from {a,b,|,(,),*,+,?,{2},{1,2},{0,2},[ab],[a-c],\\d,\\.}",
-          "thorough": "0-3 tokens from a 28-token table incl. \\s, {0}, {2,2}, {0,2}, [a\\-c], [+*()?.|], escaped "
+         {"quick": "0-3 tokens from {a,b,|,(,),*,+,?,{2},{1,2},{0,2},[ab],[a-c],\\d,\\.,\\)}",
+          "thorough": "0-3 tokens from a 29-token table incl. \\s, {0}, {2,2}, {0,2}, [a\\-c], [+*()?.|], escaped "
                       "metacharacters (the tokens that expand to the whole alphabet are in c07_wide)"},
          FUNCS, RULE, assumptions=ASSUME, per_path_timeout=120),
     Cond("C07", c07_wide, _sh_wide,
@@ -198,7 +198,7 @@ CONDS = [
           "thorough": "same"},
          FUNCS, RULE, assumptions=ASSUME, per_path_timeout=240),
     Cond("C07", c07_tokens4, _sh_tok4,
-         {"quick": "4 tokens from {a,b,|,(,),*,+,?,{2},[ab]}: first in {a,(,[ab]}, second in {a,|,),*,{2}}",
+         {"quick": "4 tokens from {a,b,|,(,),*,+,?,{2},[ab]}: first in {a,(,[ab]}, second in {a,|,),*,{2}}, plus the prefixes '((' and '([ab]'",
           "thorough": "all 10^4 four-token patterns"},
          FUNCS, RULE, assumptions=ASSUME),
     Cond("C07", c07_chars, _sh_chars,
